@@ -70,70 +70,81 @@ func genPrioScenario(rng *rand.Rand, g prioGen) PrioScenario {
 	if maxH == 0 {
 		maxH = 64
 	}
+	// Rate is not monotone in H: H is moved up to the next value whose shares are all non-zero
+	// (the v2 constructor's condition; for v1, whose constructor accepts everything,
+	// configurations with a zero share are documented as fatal and are not driven). With
+	// AddInput / RemoveInput every subset of the priorities that can be registered must be
+	// non-fatal. Priority sets that need more than 700 handlers are redrawn.
+	good := func(prios []uint, h uint) bool {
+		if g.Mode == "addrm" {
+			universe := append(append([]uint{}, prios...), 11, 12, 13)
+			sort.Slice(universe, func(i, j int) bool { return universe[i] > universe[j] })
+			u := universe[:0]
+			for i, p := range universe {
+				if i == 0 || universe[i-1] != p {
+					u = append(u, p)
+				}
+			}
+			return bruteNonFatal(u, func(p []uint, q uint, d map[uint]uint) { div(p, q, d) }, h)
+		}
+		d := sharesOf(div, prios, h)
+		for _, p := range prios {
+			if d[p] == 0 {
+				return false
+			}
+		}
+		return true
+	}
 	var prios []uint
-	var minH uint
 	for try := 0; ; try++ {
 		prios = genPriorities(rng)
+		if try > 30 {
+			prios = []uint{3, 2, 1}
+		}
+		if g.Mode == "addrm" {
+			for i := range prios { // keep the universe dense so that small H are non-fatal
+				prios[i] = prios[i]%80 + 1
+			}
+			sort.Slice(prios, func(i, j int) bool { return prios[i] > prios[j] })
+			dedup := prios[:0]
+			for i, p := range prios {
+				if i == 0 || prios[i-1] != p {
+					dedup = append(dedup, p)
+				}
+			}
+			prios = dedup
+		}
 		lim := maxH
 		if rng.IntN(12) == 0 {
 			lim = 700 // occasionally a skewed set that needs hundreds of handlers
 		}
-		minH = minHandlers(div, prios, lim)
-		if minH != 0 || try > 20 {
-			break
-		}
-	}
-	if minH == 0 {
-		prios = []uint{3, 2, 1}
-		minH = minHandlers(div, prios, 100)
-	}
-	switch k := rng.IntN(10); {
-	case k < 3:
-		sc.H = minH
-	case k < 5:
-		sc.H = minH + uint(rng.IntN(3))
-	case k < 9:
-		sc.H = minH + uint(rng.IntN(int(2*minH)+1))
-	default:
-		sc.H = minH + uint(64+rng.IntN(200))
-	}
-	if sc.H > 700 {
-		sc.H = 700
-	}
-	if g.Mode == "saturate" && sc.H > 48 && minH <= 48 {
-		sc.H = minH + uint(rng.IntN(int(48-minH)+1))
-	}
-	// Rate is not monotone in H: move up to the next H whose shares are all non-zero (the v2
-	// constructor's condition; for v1, whose constructor accepts everything, configurations
-	// with a zero share are documented as fatal and are not driven). With AddInput /
-	// RemoveInput every subset of the priorities that can be registered must be non-fatal.
-	universe := prios
-	if g.Mode == "addrm" {
-		universe = append(append([]uint{}, prios...), 11, 12, 13)
-		sort.Slice(universe, func(i, j int) bool { return universe[i] > universe[j] })
-		seen := map[uint]bool{}
-		u := universe[:0]
-		for _, p := range universe {
-			if !seen[p] {
-				seen[p] = true
-				u = append(u, p)
+		minH := uint(0)
+		for q := uint(len(prios)); q <= lim; q++ {
+			if good(prios, q) {
+				minH = q
+				break
 			}
 		}
-		universe = u
-	}
-	for ; sc.H <= 4000; sc.H++ {
-		ok := true
-		if g.Mode == "addrm" {
-			ok = bruteNonFatal(universe, func(p []uint, q uint, d map[uint]uint) { div(p, q, d) }, sc.H)
-		} else {
-			d := sharesOf(div, prios, sc.H)
-			for _, p := range prios {
-				if d[p] == 0 {
-					ok = false
-				}
-			}
+		if minH == 0 {
+			continue
 		}
-		if ok {
+		switch k := rng.IntN(10); {
+		case k < 3:
+			sc.H = minH
+		case k < 5:
+			sc.H = minH + uint(rng.IntN(3))
+		case k < 9:
+			sc.H = minH + uint(rng.IntN(int(2*minH)+1))
+		default:
+			sc.H = minH + uint(64+rng.IntN(200))
+		}
+		if g.Mode == "saturate" && sc.H > 48 && minH <= 48 {
+			sc.H = minH + uint(rng.IntN(int(48-minH)+1))
+		}
+		for sc.H <= 700 && !good(prios, sc.H) {
+			sc.H++
+		}
+		if sc.H <= 700 {
 			break
 		}
 	}
